@@ -320,3 +320,119 @@ Proof.
   intros a b Hab. destruct (HJ a b Hab) as [P [Q|Q]]; [destruct Q|].
   split; [exact P|]. split; [apply (mlookup_inr _ _ _ _ _ Mr Hab)|exact Q].
 Qed.
+
+(* ---- deepcopy with fuel = 1 + number of objects of the store ALWAYS succeeds on a well-formed store ----------------- *)
+(* measure: the number of original locations not yet in the memo; every descent into a new object memoises one *)
+Definition unm (m : memo) (l : nat) : bool := match mlookup l m with None => true | Some _ => false end.
+Definition cnt (P : nat -> bool) (n : nat) : nat := length (filter P (seq 0 n)).
+
+Lemma cnt_S : forall P n, cnt P (S n) = (cnt P n + (if P n then 1 else 0))%nat.
+Proof.
+  intros P n. unfold cnt. rewrite seq_S. simpl. rewrite filter_app, app_length. simpl. destruct (P n); reflexivity.
+Qed.
+
+Lemma cnt_le : forall P Q n, (forall l, (l < n)%nat -> Q l = true -> P l = true) -> (cnt Q n <= cnt P n)%nat.
+Proof.
+  intros P Q. induction n as [|n IH]; intros H; [reflexivity|]. rewrite !cnt_S.
+  assert (cnt Q n <= cnt P n)%nat by (apply IH; intros; apply H; auto).
+  destruct (Q n) eqn:EQ; [rewrite (H n (Nat.lt_succ_diag_r n) EQ); lia|destruct (P n); lia].
+Qed.
+
+Lemma cnt_lt : forall P Q n l0, (forall l, (l < n)%nat -> Q l = true -> P l = true) ->
+  (l0 < n)%nat -> P l0 = true -> Q l0 = false -> (cnt Q n < cnt P n)%nat.
+Proof.
+  intros P Q. induction n as [|n IH]; intros l0 H Hl HP HQ; [lia|]. rewrite !cnt_S.
+  destruct (Nat.eq_dec l0 n) as [->|Hne].
+  - rewrite HP, HQ. assert (cnt Q n <= cnt P n)%nat by (apply cnt_le; intros; apply H; auto). lia.
+  - assert (cnt Q n < cnt P n)%nat.
+    { apply (IH l0); auto; try lia. }
+    destruct (Q n) eqn:EQ; [rewrite (H n (Nat.lt_succ_diag_r n) EQ); lia|destruct (P n); lia].
+Qed.
+
+Lemma cnt_bound : forall P n, (cnt P n <= n)%nat.
+Proof.
+  intros P. induction n as [|n IH]; [reflexivity|]. rewrite cnt_S. destruct (P n); lia.
+Qed.
+
+Lemma dc_items_mext : forall rec, (forall st m v st' m' v', rec st m v = Some (st', m', v') -> mext m m') ->
+  forall its st m st' m' its', dc_items rec its st m = Some (st', m', its') -> mext m m'.
+Proof.
+  intros rec Hrec. induction its as [|[k x] t IH]; intros st m st' m' its' H; simpl in H.
+  - inversion H; subst. apply mext_refl.
+  - destruct (rec st m k) as [[[st1 m1] k']|] eqn:E1; [|discriminate].
+    destruct (rec st1 m1 x) as [[[st2 m2] x']|] eqn:E2; [|discriminate].
+    destruct (dc_items rec t st2 m2) as [[[st3 m3] t']|] eqn:E3; [|discriminate].
+    inversion H; subst. eapply mext_trans; [eapply Hrec; eauto|]. eapply mext_trans; [eapply Hrec; eauto|]. eapply IH; eauto.
+Qed.
+
+Lemma dcv_mext : forall fuel st m v st' m' v', dcv fuel st m v = Some (st', m', v') -> mext m m'.
+Proof.
+  induction fuel as [|f IH]; intros st m v st' m' v' H.
+  - destruct v as [| | |l]; simpl in H; try (inversion H; subst; apply mext_refl).
+    destruct (mlookup l m); [|discriminate]. inversion H; subst. apply mext_refl.
+  - destruct v as [| | |l]; simpl in H; try (inversion H; subst; apply mext_refl).
+    destruct (mlookup l m) as [l'|] eqn:El; [inversion H; subst; apply mext_refl|].
+    destruct (get st l) as [o|]; [|discriminate].
+    destruct (dc_items (dcv f) (o_items o) (st ++ [mkObj (o_kind o) []]) ((l, length st) :: m))
+      as [[[st2 m2] its']|] eqn:E; [|discriminate].
+    inversion H; subst. eapply mext_trans; [|eapply (dc_items_mext (dcv f) IH); eauto].
+    intros a b Hab. rewrite mlookup_cons_other; auto. intros ->. congruence.
+Qed.
+
+Lemma unm_mext : forall m m' n, mext m m' -> (cnt (unm m') n <= cnt (unm m) n)%nat.
+Proof.
+  intros m m' n H. apply cnt_le. intros l _ Hl. unfold unm in *.
+  destruct (mlookup l m) as [b|] eqn:E; [|reflexivity]. rewrite (H l b E) in Hl. discriminate.
+Qed.
+
+Definition dck_spec (st0 : store) (f : nat) : Prop :=
+  forall st m v, inv st0 st -> memo_inr (length st0) (length st) m -> below (length st0) v ->
+                 (cnt (unm m) (length st0) < f)%nat -> exists r, dcv f st m v = Some r.
+
+Lemma dc_items_succeeds : forall st0 f, dck_spec st0 f ->
+  forall its st m, inv st0 st -> memo_inr (length st0) (length st) m -> items_below (length st0) its ->
+                   (cnt (unm m) (length st0) < f)%nat -> exists r, dc_items (dcv f) its st m = Some r.
+Proof.
+  intros st0 f Hk. induction its as [|[k x] t IH]; intros st m Hinv Hm Hb Hc; simpl; [eexists; reflexivity|].
+  inversion Hb as [|? ? [Bk Bx] Bt]; subst. simpl in Bk, Bx.
+  destruct (Hk st m k Hinv Hm Bk Hc) as [[[st1 m1] k'] E1]. rewrite E1.
+  destruct (dcv_spec st0 f _ _ _ _ _ _ Hinv Hm E1) as (I1 & M1 & _ & _).
+  pose proof (unm_mext _ _ (length st0) (dcv_mext _ _ _ _ _ _ _ E1)) as C1.
+  destruct (Hk st1 m1 x I1 M1 Bx ltac:(lia)) as [[[st2 m2] x'] E2]. rewrite E2.
+  destruct (dcv_spec st0 f _ _ _ _ _ _ I1 M1 E2) as (I2 & M2 & _ & _).
+  pose proof (unm_mext _ _ (length st0) (dcv_mext _ _ _ _ _ _ _ E2)) as C2.
+  destruct (IH st2 m2 I2 M2 Bt ltac:(lia)) as [[[st3 m3] t'] E3]. rewrite E3. eexists; reflexivity.
+Qed.
+
+Lemma dcv_succeeds_n : forall st0, wf st0 -> forall f, dck_spec st0 f.
+Proof.
+  intros st0 Hwf. induction f as [|f IH]; intros st m v Hinv Hm Hb Hc.
+  - lia.
+  - destruct v as [| | |l]; simpl; try (eexists; reflexivity).
+    destruct (mlookup l m) as [l'|] eqn:El; [eexists; reflexivity|].
+    simpl in Hb. rewrite (inv_agree _ _ Hinv l Hb).
+    destruct (get st0 l) as [o|] eqn:Hg; [|exfalso; apply get_none_ge in Hg || (unfold get in Hg; apply nth_error_None in Hg); lia].
+    assert (Hempty : items_inr (length st0) (length st) (o_items (mkObj (o_kind o) []))) by constructor.
+    destruct (inv_alloc st0 st (mkObj (o_kind o) []) Hinv Hempty) as [I1 V1].
+    assert (M1 : memo_inr (length st0) (length (st ++ [mkObj (o_kind o) []])) ((l, length st) :: m)).
+    { constructor; [simpl in *; exact V1|]. eapply memo_inr_mono; [exact Hm|]. rewrite app_length. lia. }
+    assert (C1 : (cnt (unm ((l, length st) :: m)) (length st0) < cnt (unm m) (length st0))%nat).
+    { apply (cnt_lt _ _ _ l); auto.
+      - intros a _ Ha. unfold unm in *. destruct (Nat.eq_dec a l) as [->|Hne].
+        + rewrite mlookup_cons_same in Ha. discriminate.
+        + rewrite mlookup_cons_other in Ha by assumption. exact Ha.
+      - unfold unm. rewrite El. reflexivity.
+      - unfold unm. rewrite mlookup_cons_same. reflexivity. }
+    destruct (dc_items_succeeds st0 f IH (o_items o) _ _ I1 M1 (Hwf l o Hg) ltac:(lia)) as [[[st2 m2] its'] E].
+    rewrite E. eexists; reflexivity.
+Qed.
+
+(* C09: the fuel the writer models pass to deepcopy (one more than the number of objects in the store) always suffices *)
+Theorem deepcopy_succeeds : forall st v, wf st -> below (length st) v ->
+  exists st' v', deepcopy (S (length st)) st v = Some (st', v').
+Proof.
+  intros st v Hwf Hb.
+  destruct (dcv_succeeds_n st Hwf (S (length st)) st [] v (inv_refl st) (Forall_nil _) Hb) as [[[st' m'] v'] E].
+  - pose proof (cnt_bound (unm []) (length st)). lia.
+  - exists st', v'. unfold deepcopy. rewrite E. reflexivity.
+Qed.
